@@ -24,6 +24,9 @@ package statedifflength
 //@ func blockRange
 //@   trusted
 //@   logged
+//@ extern func github.com/NethermindEth/juno/migration/semaphore.New
+//@ extern func github.com/NethermindEth/juno/migration/progresslogger.NewBlockProgressTracker
+//@ extern func github.com/NethermindEth/juno/migration/progresslogger.CallEveryInterval
 //@ func newIngestor
 //@   trusted
 //@ func newCommitter
